@@ -411,12 +411,15 @@ func (rc *LRURevisionCache) Remove(ctx context.Context, docID, versionString str
 }
 
 // removeValueForFailedLoad removes a value after a failed load. Must only be called for failed loads;
-// to remove a cached item use Remove. No memory decrement is needed because failed loads never reach
-// the CAS that transitions to memStateSized, but we store memStateRemoved as a safety guard.
+// to remove a cached item use Remove. The failed load itself never reaches the CAS that transitions to
+// memStateSized, but a concurrent Put for the same key shares this value and may already have accounted
+// its bytes - in that case they must be released here, as the value is about to leave the cache.
 func (rc *LRURevisionCache) removeValueForFailedLoad(value *revCacheValue) {
 	// Mark removed before acquiring the lock so any concurrent CAS-based increment sees the
 	// terminal state and skips, even if it races with this function.
-	value.memState.Store(memStateRemoved)
+	if value.memState.Swap(memStateRemoved) == memStateSized {
+		rc.memoryController.decrementBytesCount(value.getItemBytes())
+	}
 	rc.lock.Lock()
 	defer rc.lock.Unlock()
 	var itemRemoved bool
